@@ -232,8 +232,9 @@ Section HandleFacts.
       end
     end.
   Proof.
-    unfold handle_req. destruct (decide matches rules (q_name q)); try reflexivity.
-    destruct (pack_req ecs q client) as [w| | |]; try reflexivity. destruct (up u (Ok w)); reflexivity.
+    unfold handle_req, forward_q. destruct (decide matches rules (q_name q)); try reflexivity.
+    destruct (pack_req ecs q client) as [w| | |]; try reflexivity.
+    destruct (up u (Ok w)) as [r|]; [destruct (reply_question_ok q r)|]; reflexivity.
   Qed.
 End HandleFacts.
 
@@ -331,7 +332,7 @@ Section OptFacts.
   Lemma handle_req_ar_count q client :
     count_opt (m_ar (fst (handle_req matches rules ecs up q client))) = 0.
   Proof.
-    unfold handle_req. destruct (decide matches rules (q_name q)); try reflexivity.
+    unfold handle_req, forward_q. destruct (decide matches rules (q_name q)); try reflexivity.
     destruct (pack_req ecs q client) as [w| | |]; try reflexivity.
     destruct (up u (Ok w)) as [r|] eqn:E; [|reflexivity].
     destruct (reply_question_ok q r); [|reflexivity]. cbn [fst].
@@ -759,7 +760,7 @@ Section HandleWf.
   Lemma handle_req_wf q client : wf_question q ->
     wf_msg (fst (handle_req matches rules ecs up q client)) /\ resp_room (fst (handle_req matches rules ecs up q client)).
   Proof.
-    intros Hq. unfold handle_req. destruct (decide matches rules (q_name q)) as [rc|u|] eqn:Ed.
+    intros Hq. unfold handle_req, forward_q. destruct (decide matches rules (q_name q)) as [rc|u|] eqn:Ed.
     - cbn [fst]. split; [apply empty_resp_wf; [exact Hq|eapply decide_reject_small; eauto]|unfold resp_room; cbn; lia].
     - destruct (pack_req ecs q client) as [w| | |]; try (cbn [fst]; split; [apply empty_resp_wf; [exact Hq|unfold RCodeServFail; lia]|unfold resp_room; cbn; lia]).
       destruct (up u (Ok w)) as [r|] eqn:Eu; [destruct (reply_question_ok q r)|]; cbn [fst].
